@@ -1060,6 +1060,9 @@ def setup(ctx):
               "default_opt_arg / default_opt_arg_bounds / default_rescale tables", "TPLCovModel.var_factor",
               "sill / len_scale_vec / field_dim / spatial_dim"):
         ctx.tie[f] = "hand model + correspondence"
+    for f in ("TPLCovModel.var_factor", "Gaussian.default_rescale",
+              "calc_integral_scale (Gaussian, Exponential, Stable, Matern, Integral, Rational)"):
+        ctx.tie[f] = "translated (py2coq, coq/gen/Formulas_gen.v) = model (C14_Tie.v, checked by Coq) + correspondence"
 
 
 def run(ctx):
